@@ -14,7 +14,10 @@ Base == << [name |-> "A", fields |-> <<F("name", "String", FALSE, FALSE), F("n",
 NewFields == { <<F("f1", "String", TRUE, FALSE)>>, <<F("f1", "String", FALSE, TRUE)>>, <<F("f1", "String", FALSE, FALSE)>>,
                <<F("f1", "String", TRUE, FALSE), F("f2", "Integer", FALSE, TRUE)>>,
                <<F("f1", "String", TRUE, FALSE), F("f2", "Integer", FALSE, TRUE), F("f3", "String", TRUE, FALSE)>>,
-               <<F("g1", "Integer", TRUE, FALSE), F("g2", "String", FALSE, TRUE), F("g3", "Integer", TRUE, FALSE)>> }
+               <<F("g1", "Integer", TRUE, FALSE), F("g2", "String", FALSE, TRUE), F("g3", "Integer", TRUE, FALSE)>>,
+               \* declared in an order that is not the order of their names (identifiers follow the declaration, not the alphabet)
+               <<F("z1", "String", TRUE, FALSE), F("a1", "Integer", FALSE, TRUE)>>,
+               <<F("m2", "Integer", TRUE, FALSE), F("m1", "String", FALSE, TRUE), F("b0", "String", TRUE, FALSE)>> }
 Fresh(e, fs) == \A i \in 1..Len(fs) : \A j \in 1..Len(e.fields) : e.fields[j].name # fs[i].name
 AddFields(v, i, fs) == [v EXCEPT ![i].fields = @ \o fs]
 RemoveLast(s) == SubSeq(s, 1, Len(s) - 1)
